@@ -195,6 +195,7 @@ impl<'a, F: Float, K: 'a + Permutable<F>> SolverState<'a, F, K> {
         self.active_set.swap(i, j);
         self.kernel.swap_indices(i, j);
         self.targets.swap(i, j);
+        self.bounds.swap(i, j);
     }
 
     /// Reconstruct gradients from inactivate variables
